@@ -147,8 +147,9 @@ class Case:
 
 
 class TU:
-    def __init__(self, name, cases, headers=(), weight=1, pre=''):
+    def __init__(self, name, cases, headers=(), weight=1, pre='', only_cfgs=None):
         self.name, self.cases, self.headers, self.weight, self.pre = name, list(cases), tuple(headers), weight, pre
+        self.only_cfgs = only_cfgs      # optional glob on the configuration name (expensive TUs run under fewer configurations)
 
     def source(self, cases=None):
         cases = self.cases if cases is None else cases
@@ -398,13 +399,13 @@ def build_and_run(work, tu, cfg, seed, compile_timeout, case_timeout, keep=False
 
 def run_matrix(work, tus, cfgs, seed, compile_timeout=900, case_timeout=60, log=None):
     """All (TU, cfg) pairs on a memory-aware pool. Returns list of events."""
-    jobs = [(tu, cfg) for cfg in cfgs for tu in tus]
+    jobs = [(tu, cfg) for cfg in cfgs for tu in tus if not tu.only_cfgs or fnmatch.fnmatchcase(cfg.name, tu.only_cfgs)]
     # heavy TUs first
-    jobs.sort(key=lambda j: -j[0].weight)
+    jobs.sort(key=lambda j: (-j[0].weight, 0 if j[1].san else 1))     # long poles (heavy TUs, sanitizer builds) first
     events = []
     sem = threading.Semaphore(NPROC)
     lock = threading.Lock()
-    stats = {'compile_s': 0.0, 'run_s': 0.0, 'jobs': 0}
+    stats = {'compile_s': 0.0, 'run_s': 0.0, 'jobs': 0, 'slowest': []}
 
     def one(job):
         tu, cfg = job
@@ -418,7 +419,7 @@ def run_matrix(work, tus, cfgs, seed, compile_timeout=900, case_timeout=60, log=
                 sem.release()
 
     with ThreadPoolExecutor(max_workers=NPROC) as ex:
-        futs = [ex.submit(one, j) for j in jobs]
+        futs = {ex.submit(one, j): j for j in jobs}
         done = 0
         for f in as_completed(futs):
             ev, tc, tr = f.result()
@@ -427,6 +428,8 @@ def run_matrix(work, tus, cfgs, seed, compile_timeout=900, case_timeout=60, log=
                 stats['compile_s'] += tc
                 stats['run_s'] += tr
                 stats['jobs'] += 1
+                stats['slowest'].append((round(tc + tr, 1), futs[f][0].name, futs[f][1].name))
+                stats['slowest'] = sorted(stats['slowest'], reverse=True)[:5]
             done += 1
             if log and (done % 20 == 0 or done == len(jobs)):
                 log('  built+ran %d/%d (TU,cfg) jobs' % (done, len(jobs)))
@@ -605,7 +608,7 @@ def run_check(mod, tier, seed):
         # developer aids (never used by registered commands)
         flt = os.environ.get('VERIF_FILTER')
         if flt:
-            tus = [TU(t.name, [c for c in t.cases if fnmatch.fnmatchcase(c.key, flt)], t.headers, t.weight, t.pre) for t in tus]
+            tus = [TU(t.name, [c for c in t.cases if fnmatch.fnmatchcase(c.key, flt)], t.headers, t.weight, t.pre, t.only_cfgs) for t in tus]
             tus = [t for t in tus if t.cases]
         cflt = os.environ.get('VERIF_CFGS')
         if cflt:
@@ -699,6 +702,7 @@ def run_check(mod, tier, seed):
             'max_error_over_bound': max(ratios) if ratios else None,
             'compile_cpu_s': round(stats['compile_s'], 1),
             'run_cpu_s': round(stats['run_s'], 1),
+            'slowest_jobs_s': stats['slowest'],
             'exhaustive': False,
         }
         if hasattr(mod, 'coverage_extra'):
